@@ -8,7 +8,9 @@ package main
 
 import (
 	"fmt"
+	"go/token"
 	"go/types"
+	"os"
 	"strings"
 
 	"golang.org/x/tools/go/ssa"
@@ -302,11 +304,15 @@ func (w *World) guarded(id string, opts *RunOpts, ex *Extra) {
 				continue
 			}
 			f := strings.Fields(cl.Raw)
-			if len(f) != 3 || f[1] != "unless-field" {
+			if len(f) != 3 || (f[1] != "unless-field" && f[1] != "unless-equal-fields") {
 				continue
 			}
 			callee, field := f[0], f[2]
+			eqForm := f[1] == "unless-equal-fields"
 			name := fmt.Sprintf("%s/guarded:%s-unless-%s", c.Func, callee, field)
+			if eqForm {
+				name = fmt.Sprintf("%s/guarded:%s-unless-equal-%s", c.Func, callee, field)
+			}
 			fn := w.findFunc(c)
 			ex.Count++
 			if fn == nil {
@@ -317,8 +323,18 @@ func (w *World) guarded(id string, opts *RunOpts, ex *Extra) {
 			var safe []*ssa.BasicBlock // false successors of tests of the field
 			for _, b := range fn.Blocks {
 				ifi, ok := b.Instrs[len(b.Instrs)-1].(*ssa.If)
-				if ok && fieldNameOf(ifi.Cond) == field {
+				if ok && !eqForm && fieldNameOf(ifi.Cond) == field {
 					safe = append(safe, b.Succs[1])
+				}
+				// unless-equal-fields: the test compares the field of two values; the
+				// callee is reached only on the "differ" side
+				if bo, isB := ifi0(ifi, ok); eqForm && isB && fieldNameOf(bo.X) == field && fieldNameOf(bo.Y) == field {
+					switch bo.Op {
+					case token.EQL:
+						safe = append(safe, b.Succs[1])
+					case token.NEQ:
+						safe = append(safe, b.Succs[0])
+					}
 				}
 			}
 			found, bad := 0, ""
@@ -331,15 +347,22 @@ func (w *World) guarded(id string, opts *RunOpts, ex *Extra) {
 					found++
 					okG := false
 					for _, sb := range safe {
-						if sb.Dominates(b) {
+						// the guarding EDGE must dominate: its target has no other way in
+						if len(sb.Preds) == 1 && sb.Dominates(b) {
 							okG = true
 						}
 					}
 					if !okG && bad == "" {
 						p := w.prog.Fset.Position(call.Pos())
 						bad = fmt.Sprintf("the call of %s at line %d is reachable when %s is set", callee, p.Line, field)
+						if eqForm {
+							bad = fmt.Sprintf("the call of %s at line %d is not behind a comparison of the two %s fields", callee, p.Line, field)
+						}
 					}
 				}
+			}
+			if os.Getenv("GOVC_DEBUG_GUARD") != "" {
+				fmt.Fprintln(os.Stderr, "guarded", name, "found", found, "safe", len(safe), "bad", bad)
 			}
 			switch {
 			case found == 0:
@@ -446,4 +469,12 @@ func (w *World) callOrder(id string, opts *RunOpts, ex *Extra) {
 			}
 		}
 	}
+}
+
+func ifi0(ifi *ssa.If, ok bool) (*ssa.BinOp, bool) {
+	if !ok {
+		return nil, false
+	}
+	bo, isB := ifi.Cond.(*ssa.BinOp)
+	return bo, isB
 }
